@@ -10,28 +10,29 @@ use crate::nd;
 pub const MAXN: usize = 5;
 
 /// Title number t is a concrete one-word text: 0 "a", 1 "b", 2 "ab", 3 "ba", 4 "" (no word),
-/// 5 "B" (original upper case, normalised "b").
+/// 5 "B" (original upper case, normalised "b"), 6 "-" (a separator only: one character, no word).
 pub fn title(t: u8) -> TextOwn {
     let chars: Vec<char> = match t {
         0 => vec!['a'],
         1 | 5 => vec!['b'],
         2 => vec!['a', 'b'],
         3 => vec!['b', 'a'],
+        6 => vec!['-'],
         _ => Vec::with_capacity(1),
     };
-    let n = chars.len();
+    let n = if t == 6 { 0 } else { chars.len() };
     let mut words = Vec::with_capacity(1);
     if n > 0 { words.push(WordShape { offset: 0, slice: (0, n), stem: n, pos: None, fin: true }); }
     let mut classes = Vec::with_capacity(2);
     let mut i = 0;
-    while i < n { classes.push(CharClass::Any); i += 1; }
+    while i < chars.len() { classes.push(CharClass::Any); i += 1; }
     let source = if t == 5 { vec!['B'] } else { chars.clone() };
     TextOwn { words, source, chars, classes }
 }
 
 fn title_key(t: u8) -> u32 {
     // code-point order of the normalised titles: "" < "a" < "ab" < "b" < "ba"
-    match t { 4 => 0, 0 => 1, 2 => 2, 1 | 5 => 3, _ => 4 }
+    match t { 4 => 0, 6 => 0, 0 => 1, 2 => 2, 1 | 5 => 3, _ => 4 }
 }
 
 #[derive(Clone, Copy)]
@@ -165,7 +166,7 @@ pub fn history_query<const O1: u8, const O2: u8, const O3: u8, const O4: u8, con
 /// 31/32 lookup for "a"/"b"; 40 change markers.
 fn apply(op: u8, live: &mut Store, sh: &mut Shadow) {
     match op {
-        0..=5 => {
+        0..=6 => {
             let r = any_rec(op);
             live.add(Record { ix: 0, id: r.id, title: title(r.t), rating: r.rating });
             sh.recs[sh.n] = r;
@@ -339,6 +340,7 @@ cases! {
     st_hq_add_qa_add_qa = history_query::<0, 31, 0, 255, 0>(); st_hq_add_clear_add_qb = history_query::<0, 10, 1, 255, 1>();
     st_hq_ab_ba_qa = history_query::<2, 3, 255, 255, 0>();
     st_hq_add_qa_adde_qb = history_query::<0, 31, 4, 255, 1>();
+    st_hq_sep_add_qa = history_query::<6, 0, 255, 255, 0>(); st_hq_add_sep_addb_qb = history_query::<0, 6, 1, 255, 1>(); st_hq_clear_sep_add_qa = history_query::<10, 6, 0, 255, 0>();
     st_hq_add_qa_addb_qb = history_query::<0, 31, 1, 255, 1>(); st_hq_addb_qb_add_qa = history_query::<1, 32, 0, 255, 0>();
     st_ht_l1_add_top_add = history_top::<21, 0, 30, 1, 255>(); st_ht_l1_addb_top_add = history_top::<21, 1, 30, 0, 255>(); st_ht_l2_add_add_top_add = history_top::<22, 0, 1, 30, 0>();
 }
